@@ -1,7 +1,7 @@
 /- Driver for C19.  Case line (shared with the harness' generic `compile` op):
    `compile scss <e|c> <prec> <name> <hex scss> K19 n item^n`
-   → hex of the rendered rule blocks (`header{d1;d2;}` per line) for asis, spec; `panic` when
-   the `.unwrap()` in `resolve_ref` is reached. -/
+   → hex of the rendered rule blocks (`header{d1;d2;}` per line) for asis, spec; `err` when a
+   parent cannot take a `&` suffix (`panic` under the old-code flag `suffixUnwrapPanics`). -/
 import RsassModel.Basic.Proto
 import RsassModel.Sel.Term
 import RsassModel.Sel.Nest
@@ -32,15 +32,18 @@ def sheet : P (List Item)
   | _ => none
 
 def render (q : NestQuirks) (compressed : Bool) (its : List Item) : String :=
-  if Item.panicsList Ctx.root q its then "panic"
-  else Proto.hexOfString (String.ofList (renderBlocks compressed (sheetBlocks q its)))
+  match sheetOutcome q its with
+  | .panic => "panic"
+  | .err => "err"
+  | .ok blocks => Proto.hexOfString (String.ofList (renderBlocks compressed blocks))
 
 def handle (quirks : List String) (op : String) (args : List String) : String :=
   match op, args with
   | "compile", [_, style, _, _, _, term] =>
     match parseAll sheet term with
     | some its =>
-      let q : NestQuirks := { ampViaUnify := quirks.contains "ampViaUnify" }
+      let q : NestQuirks := { ampViaUnify := quirks.contains "ampViaUnify",
+                              suffixUnwrapPanics := quirks.contains "suffixUnwrapPanics" }
       render q (style == "c") its ++ "\t" ++ render nestSpec (style == "c") its
     | none => "bad-args"
   | _, _ => "bad-op"
